@@ -40,6 +40,8 @@ def run(chk, repo):
     chk.rule("C11-I6", "nothing reachable from a pixel load performs other I/O", 1)
     chk.attempt(open_once, chk, repo)
     chk.attempt(load_requests, chk, repo)
+    from .load_rules import wrapper_requests
+    chk.attempt(wrapper_requests, chk, repo, "C11-I11")
     chk.attempt(i123, chk, repo, g, covered_by="load_requests", rules=("C11-I2", "C11-I3"))
     chk.attempt(i4, chk, repo, g)
     # I5 / I8
